@@ -77,6 +77,9 @@ struct RunResult {
     executed: Vec<(u64, &'static str)>,
     decisions: Vec<bool>,
     gate: u8,
+    /// after the verdict: every clone that pushed during the concurrent phase pops again, one
+    /// after the other; (index of the operation, decisions, gate) after each pop
+    epilogue: Vec<(usize, Vec<bool>, u8)>,
 }
 
 fn submitted(op: &TOp, pushed_over: &MSpec) -> Option<MSpec> {
@@ -128,6 +131,9 @@ fn run_interleaving(case: &Case, order: &[usize], targets: &[String]) -> Result<
         let op = op.clone();
         joins.push(std::thread::spawn(move || {
             PARK_ID.with(|c| c.set(i as u64 + 1));
+            // a schedule point of the harness: the start of the call, so that what a call does
+            // before its first point inside flexi_logger can be placed between the steps of others
+            let _ = flexi_logger::verif_hooks::point("call.start", None);
             match op {
                 TOp::SetNew(s) => hd.set_new_spec(s.build_with_builder()),
                 TOp::ParseNew(t) => {
@@ -163,6 +169,17 @@ fn run_interleaving(case: &Case, order: &[usize], targets: &[String]) -> Result<
             // the watcher did not come (no event): release its slot, the run goes on without it
             pk.controlled.remove(&watcher_id);
             pk.adopt = None;
+        }
+    }
+    {
+        // nothing is granted before every thread has arrived at its first point: what a call does
+        // before that point (e.g. reading the facade's level) then happens before every update,
+        // in the worker as in a replay
+        let deadline = Instant::now() + Duration::from_millis(500);
+        let mut pk = hh.park.lock().unwrap_or_else(|p| p.into_inner());
+        while (1..=k as u64).any(|id| pk.controlled.contains(&id) && !pk.parked.contains_key(&id)) && Instant::now() < deadline {
+            let (g, _) = hh.park_cv.wait_timeout(pk, Duration::from_millis(5)).unwrap_or_else(|p| p.into_inner());
+            pk = g;
         }
     }
     let t0 = Instant::now();
@@ -241,7 +258,7 @@ fn run_interleaving(case: &Case, order: &[usize], targets: &[String]) -> Result<
             }
         }
     }
-    let mut clones = Vec::new();
+    let mut clones: Vec<flexi_logger::LoggerHandle> = Vec::new();
     for j in joins {
         match j.join() {
             Ok(hd) => clones.push(hd),
@@ -258,9 +275,26 @@ fn run_interleaving(case: &Case, order: &[usize], targets: &[String]) -> Result<
             decisions.push(b.log.enabled(&md));
         }
     }
+    // epilogue (sequential): what a push saved while other calls were in flight is re-activated
+    // by its pop - as a whole specification, with a gate that admits it
+    let mut epilogue = Vec::new();
+    for (i, hd) in clones.iter_mut().enumerate() {
+        if matches!(case.ops.get(i), Some(TOp::Push(_))) {
+            hd.pop_temp_spec();
+            let gate = lf_num(log::max_level());
+            let mut d = Vec::new();
+            for t in targets {
+                for l in 1..=5u8 {
+                    let md = log::Metadata::builder().level(lvl(l)).target(t).build();
+                    d.push(b.log.enabled(&md));
+                }
+            }
+            epilogue.push((i, d, gate));
+        }
+    }
     drop(clones);
     drop(main_handle);
-    Ok(RunResult { executed, decisions, gate })
+    Ok(RunResult { executed, decisions, gate, epilogue })
 }
 
 fn overlapped(executed: &[(u64, &'static str)]) -> bool {
@@ -287,10 +321,10 @@ impl Property for P {
     const ID: &'static str = "C12";
     const LEVEL: &'static str = "exploration";
     fn rule() -> String {
-        "systematic interleavings at hook granularity: 2-3 threads, each performing one of set_new_spec | parse_new_spec | push_temp_spec | pop_temp_spec on a clone of the handle with generated specs of different maximum levels and module sets, in 6 % of the cases plus flexi_logger's own specfile watcher thread (logger built with build_with_specfile, the file replaced while the threads run; the watcher is taken under control when it arrives at its first point); controlled threads are parked at the three schedule points of every specification update (enter, between the spec update and the max-level update, exit) and, with an additional writer, at a fourth point that belongs to the harness (the recording writer's max_log_level(), which flexi_logger calls between taking over the specification and setting the facade's level: 70 orderings for 2 threads) and a scheduler thread grants one step at a time; for 2 threads all 20 orderings of the 6 steps are executed per case, for 3 threads all 1680 (thorough) or a seed-chosen 120 (quick); after all calls returned: Log::enabled over the level x target grid must equal the reference matcher of exactly one submitted specification as a whole, and log::max_level must admit everything this specification (and every additional writer) accepts. Non-trivial = an executed interleaving in which two calls overlap in time (one thread passes its enter point while the other is between its enter and exit points) with specs of different maximum level; distinct = distinct serialized case; sub_evaluations = interleavings executed".into()
+        "systematic interleavings at hook granularity: 2-3 threads, each performing one of set_new_spec | parse_new_spec | push_temp_spec | pop_temp_spec on a clone of the handle with generated specs of different maximum levels and module sets, in 6 % of the cases plus flexi_logger's own specfile watcher thread (logger built with build_with_specfile, the file replaced while the threads run; the watcher is taken under control when it arrives at its first point); controlled threads are parked at a harness-owned point before their call starts (so that what a call does before its first point inside flexi_logger can be placed between the steps of the others), at the three schedule points of every specification update (enter, between the spec update and the max-level update, exit) and, with an additional writer, at a further point that belongs to the harness (the recording writer's max_log_level(), which flexi_logger calls between taking over the specification and setting the facade's level) and a scheduler thread grants one step at a time, after all threads have arrived at their first point; for 2 threads all 70 orderings of the 2x4 steps (252 with an additional writer) are executed per case, for 3 threads a seed-chosen 120 (quick) or 1680 (thorough) of the 34 650; after all calls returned: Log::enabled over the level x target grid must equal the reference matcher of exactly one submitted specification as a whole, and log::max_level must admit everything this specification (and every additional writer) accepts; then (epilogue) every clone that pushed during the concurrent phase pops again, one after the other, and after each pop the same two conditions must hold for one of the specifications that can have been active at the push. Non-trivial = an executed interleaving in which two calls overlap in time (one thread passes its enter point while the other is between its enter and exit points) with specs of different maximum level; distinct = distinct serialized case; sub_evaluations = interleavings executed".into()
     }
     fn fixed_exhaustive_note() -> Option<String> {
-        Some("per 2-thread case all 20 interleavings of the 2x3 schedule points; per 3-thread case in the thorough tier all 1680".into())
+        Some("per 2-thread case all 70 interleavings of the 2x4 schedule points (252 with an additional writer); 3-thread cases are sampled".into())
     }
     fn assumptions() -> Vec<String> {
         vec![
@@ -337,9 +371,9 @@ impl Property for P {
     fn run(case: &Case) -> Outcome {
         let mut out = Outcome::ok();
         let k = case.ops.len() + usize::from(case.watcher.is_some());
-        // schedule points per call: enter, updated, exit, and one per additional writer (the
+        // schedule points per call: start (harness), enter, updated, exit, and one per additional writer (the
         // harness-owned point in its max_log_level())
-        let steps = 3 + case.writers.len();
+        let steps = 4 + case.writers.len();
         let mut orders = if k >= 3 && steps > 3 {
             // 34 650 orderings: generated by sampling below
             Vec::new()
@@ -451,6 +485,41 @@ impl Property for P {
                         r.gate
                     ),
                 );
+                break;
+            }
+            // the pops of the epilogue: the re-activated specification is the one that was active
+            // when the push ran - the one active at the start or any submitted one
+            let mut epi_failed = false;
+            for (i, d, gate) in &r.epilogue {
+                out.class("epilogue-pop-after-concurrent-push");
+                let mut c2: Vec<(&MSpec, Vec<bool>)> = cands.iter().zip(cand_dec.iter().cloned()).collect();
+                let pushed_dec: Vec<bool> = targets.iter().flat_map(|t| (1..=5u8).map(move |l| (l, t))).map(|(l, t)| case.pushed.enabled(l, t)).collect();
+                c2.push((&case.pushed, pushed_dec));
+                let m: Vec<&(&MSpec, Vec<bool>)> = c2.iter().filter(|(_, cd)| cd == d).collect();
+                if m.is_empty() {
+                    out.set_fail(
+                        "after-pop:final-spec-is-no-submitted-spec",
+                        format!("order {order:?} (executed {:?}), then pop_temp_spec() on the clone of operation #{i}: filtering equals none of the specifications that can have been active at the push", r.executed),
+                    );
+                    epi_failed = true;
+                    break;
+                }
+                if !m.iter().any(|(c, _)| *gate >= c.max_level().max(writer_need)) {
+                    out.set_fail(
+                        "after-pop:gate-below-final-spec",
+                        format!(
+                            "order {order:?} (executed {:?}), then pop_temp_spec() on the clone of operation #{i}: the logger filters by {:?} (max level {}), but log::max_level() is {}",
+                            r.executed,
+                            m[0].0.render(),
+                            m[0].0.max_level(),
+                            gate
+                        ),
+                    );
+                    epi_failed = true;
+                    break;
+                }
+            }
+            if epi_failed {
                 break;
             }
             if r.executed.iter().any(|(i, _)| *i >= crate::hooks::ADOPTED_BASE) {
